@@ -72,12 +72,16 @@ CLAIMS = {
    technique="Lean 4 proof (parse well-formedness + decode-after-encode) + differential correspondence with Python json",
    design="6/C02"),
  'C07': dict(
-   text="Lean theorems: the filter parser is total; since/until literals are read exactly and rejected from 2^64 up; every stored kind is < 65536; a "
-        "repeated tag letter is rejected wherever the first occurrence was. Faithfulness, order independence and the as_json round trip are decided "
-        "by correspondence: CST filter texts vs Python json, member permutations (same acceptance and meaning, also for ill-formed member lists), "
-        "all 52x52 ordered letter pairs exhaustively, integer boundaries, parse(as_json(f)) byte-identical.",
-   note=PROOF_NOTE + "PARTIAL: parseFilter_complete / order independence as theorems are not proved; they rest on the correspondence (exhaustive over letter pairs, sampled elsewhere).",
-   technique="Lean 4 proof (reader lemmas, duplicate detection) + differential correspondence with Python json; exhaustive letter-pair enumeration",
+   text="Lean theorems: THE ROUND TRIP (round_trip, round_trip_values): for every canonical filter - any numbers of ids, authors and kinds, up to 32 tag "
+        "constraints named by distinct letters with UTF-8 values, any since/until/limit, members present or defaulted - as_json succeeds and from_json of its "
+        "text (any trailing input, any sufficient buffer with any prior contents) consumes exactly the text and yields exactly the bytes of from_parts, whose "
+        "accessors return the filter; both passes of the parser are covered (the first records positions and skips values, the second copies). Also: the "
+        "parser is total; since/until literals are read exactly and rejected from 2^64 up; every stored kind is < 65536; a repeated tag letter is rejected "
+        "wherever the first occurrence was. Faithfulness on arbitrary texts and order independence are decided by correspondence: CST filter texts vs Python "
+        "json, member permutations (same acceptance and meaning, also for ill-formed member lists), all 52x52 ordered letter pairs exhaustively, integer "
+        "boundaries, parse(as_json(f)) byte-identical.",
+   note=PROOF_NOTE + "PARTIAL: order independence and faithfulness on non-canonical texts (whitespace, permuted members, unknown members) are not theorems; they rest on the correspondence (exhaustive over letter pairs, sampled elsewhere).",
+   technique="Lean 4 proof (two-pass parser followed member by member over the serializer's output; reader lemmas; duplicate detection) + differential correspondence with Python json; exhaustive letter-pair enumeration",
    design="6/C07"),
  'C08': dict(
    text="Lean theorems with SHA-256 (H) and BIP-340 verification (SV) as parameters: verify succeeds iff id = H(canon e) and SV pubkey id sig; every event "
